@@ -90,8 +90,6 @@ func (ctx *Context) Parse(value string) (err error) {
 	if ctx.Config.ParseExprLimit != 0 {
 		p.maxExprCnt = ctx.Config.ParseExprLimit
 	}
-	// 设置错误消息语言
-	SetParseErrorLanguage(ctx.Config.ParseErrorLanguage)
 	defer func() {
 		// 超出 ParseExprLimit 时parser会以panic中止解析，这里转为普通错误，其他panic原样抛出
 		if e := recover(); e != nil {
@@ -103,6 +101,8 @@ func (ctx *Context) Parse(value string) (err error) {
 		}
 	}()
 	_, err = p.parse(nil)
+	// 设置错误消息语言(只作用于本次解析产生的错误，不修改全局设置)
+	setParseErrorLanguageOf(err, ctx.Config.ParseErrorLanguage)
 	if err == nil {
 		// 指令数量超过上限时多出的指令会被丢弃，此时的字节码是残缺的，不能执行
 		err = p.cur.data.codeErr
